@@ -336,4 +336,60 @@ impl ModuleTag {
 //@end
 }
 
+// ---------------------------------------------------------------------------
+// C04 / C05: the plain accessors of the variable-length kinds hand out EXACTLY the DST tail
+// (whose length is dst_len, proved above) and the stored fixed fields -- for all lengths.
+// ---------------------------------------------------------------------------
+impl MemoryMapTag {
+//@extract multiboot2/src/memory_map.rs :: impl MemoryMapTag :: fn entry_size
+//@  ret r
+//@  spec:
+//@    ensures r == self.entry_size,
+//@end
+//@extract multiboot2/src/memory_map.rs :: impl MemoryMapTag :: fn entry_version
+//@  ret r
+//@  spec:
+//@    ensures r == self.entry_version,
+//@end
+//@extract multiboot2/src/memory_map.rs :: impl MemoryMapTag :: fn memory_areas
+//@  ret r
+//@  prologue proof { assert(size_of::<MemoryArea>() == 24); }
+//@  spec:
+//@    requires panics_allowed(),
+//@    ensures
+//@        // an entry size other than the 24 bytes of this crate's MemoryArea is rejected (controlled panic)
+//@        self.entry_size == 24,
+//@        r@ == self.areas@,
+//@end
+}
+impl SmbiosTag {
+//@extract multiboot2/src/smbios.rs :: impl SmbiosTag :: fn major
+//@  ret r
+//@  spec:
+//@    ensures r == self.major,
+//@end
+//@extract multiboot2/src/smbios.rs :: impl SmbiosTag :: fn minor
+//@  ret r
+//@  spec:
+//@    ensures r == self.minor,
+//@end
+//@extract multiboot2/src/smbios.rs :: impl SmbiosTag :: fn tables
+//@  ret r
+//@  spec:
+//@    ensures r@ == self.tables@,
+//@end
+}
+impl ModuleTag {
+//@extract multiboot2/src/module.rs :: impl ModuleTag :: fn start_address
+//@  ret r
+//@  spec:
+//@    ensures r == self.mod_start,
+//@end
+//@extract multiboot2/src/module.rs :: impl ModuleTag :: fn end_address
+//@  ret r
+//@  spec:
+//@    ensures r == self.mod_end,
+//@end
+}
+
 } // verus!
